@@ -51,7 +51,9 @@ CLAIMED = {
             "(the count-based judge that is applied to the real code accepts exactly what the extracted runner prints), C20_trace_judge_implies_obs, C20_success_means_written, "
             "C20_error_means_unwritten, C20_no_dup(_backend), C20_failover, C20_later_direct, C20_refused(_backend). Correspondence: the exhaustive fault table (cached connection x "
             "reconnectable path x per-send destination behaviour) for 1-2 (thorough 3) sends against the real FailOverClientTransport/TCPClientTransport/TCPBackend with scripted "
-            "net.Conn doubles and real loopback listeners.",
+            "net.Conn doubles and real loopback listeners. Inside the whole proxy: TB_send_reuse / TB_send_dial / TB_send_refused (ProxyTB: a TCP backend's "
+            "cached connection is reused, a closed one re-dialled in the same send, a refusing peer fails the send) and C02_stale_redial (the same for "
+            "a TCP next hop), exercised by histories in which backends close their connections and the next request must arrive on a new one.",
             "PARTIAL: what the peer actually received after a reset, kernel buffering (a write to a connection the peer already reset can still return success) and blocking dial/write "
             "durations are runtime behaviour the model cannot exhibit; the accept-then-reset cell is judged on returns/no panic/attempt bounds only.",
             "Coq proof (case analysis of the two-attempt loops over scripted worlds, invariants along send sequences) + exhaustive fault-table differential run"),
@@ -98,13 +100,20 @@ PROXY_NOTE = ("Whole-proxy engine: the model Proxy.proxy_step (one state per lis
               "(SpecProxy.v / SpecProxy2.v, its own minimal SIP reader) is applied to what the real proxy emitted. Theorems are about the model at the level of decoded messages; the "
               "judge-level link (the executable judge, run on the bytes the model emits, answers 0) is proved as Cxx_judge_bridge_* for C01, C02, C03, C06, C07 and C13 on the "
               "C14 grammar domain and exercised by the runs for the others. Proxy-generated branches and OS-chosen ports are canonicalised. ")
+TB_NOTE = ("Backends reached over TCP (tcp://): ProxyTB.proxy_step_tb is a conservative extension of proxy_step (TB_conservative(_entry/_history): for a "
+           "listen entry with UDP backends it IS proxy_step, so the theorems above apply unchanged; TB_copy_faithful*: the copied pipeline differs only "
+           "where a backend is reached; TB_payload_agrees: the message written to a TCP backend is the one the UDP model writes; TB_send_reuse/_dial/"
+           "_refused/_one_message, TB_at_most_one(_tcp), TB_sticky_step / TB_unpinned_step / TB_rotation_agrees, TB_remove_closes, TB_cached_peer); "
+           "its histories (connections dialled, reused, closed by the backend and re-dialled, members removed) are played through the real proxy "
+           "inside this check (component proxytb, same judges). The local end of a connection dialled without a local address is taken to be "
+           "127.0.0.1 (the kernel's choice on the loopback interface; observed, part of the trusted base). ")
 CLAIMED.update({
     "C01": ("Theorems for every message, configuration, state and every relaying path (backend, Route, static route, response by Via; UDP and TCP): C01_relay_preserves (every output is "
             "write_message of a message with the same non-routing view: start line, every (name, value) pair other than Via/Route/Record-Route/Content-Length in order and multiplicity, body), "
             "C01_proxy_step_udp/tcp, C01_stable_on_c14_domain + C01_stable_necessary (the re-encode-stability hypothesis holds on the grammar domain and is visibly necessary: CSeq '0001 INVITE'), "
             "C01_single_content_length(_read) (exactly one Content-Length = body length, also through the judge's own line reader), C01_judge_bridge_partial/request/response and C01_judge_relay "
             "(the executable judge accepts the model's output), C01_legacy_refuted.",
-            PROXY_NOTE + "Header values are compared modulo surrounding blanks, read as Unicode white space: Go's TrimSpace strips the UTF-8 encodings of the Unicode White_Space runes too, the model (Bytes.trim_space_go, validated against strings.TrimSpace) and the judge do the same, and about one generated extension value in 15 begins/ends with such a rune or a look-alike.",
+            PROXY_NOTE + TB_NOTE + "Header values are compared modulo surrounding blanks, read as Unicode white space: Go's TrimSpace strips the UTF-8 encodings of the Unicode White_Space runes too, the model (Bytes.trim_space_go, validated against strings.TrimSpace) and the judge do the same, and about one generated extension value in 15 begins/ends with such a rune or a look-alike.",
             "Coq proof (frame lemmas for every state-passing message operation, composed along the pipeline) + whole-proxy differential run with independent judge"),
     "C02": ("Theorems for every response, state, configuration: C02_response_general / C02_response_hop (both layouts: comma list and repeated lines, compact/odd-case names: exactly one send to "
             "received-or-host, numeric-rport-or-sent-by-port, over the entry's transport, with the remaining Via entries intact), C02_single_via_dropped, C02_undecodable_dropped, C02_dest_unsupported, "
@@ -112,25 +121,33 @@ CLAIMED.update({
             "relayed request returns to the true source / its sent-by with the Via stack that hop sent), C02_process_response; C02_legacy_refuted witness in proofs/C02.v. "
             "Judge link (proofs/C02_bridge.v): C02_judge_bridge_core, _step_udp, _step_drop, _step_unsupported, _step_unresolved (full: judge_C02_event answers 0 on the model's own "
             "output for every response in the Via grammar domain), _step_tcp_sent / _step_tcp_fresh (full when the model wrote on a connection / for the first use of an address), "
-            "_step_tcp_partial (general TCP: agreement between the judge's and the model's view of open connections is a hypothesis).",
+            "_step_tcp_partial (general TCP: agreement between the judge's and the model's view of open connections is a hypothesis). C02_stale_redial: a "
+            "cached client connection the peer has closed costs one round, the second round dials AND writes (model defect M1, found by the "
+            "correspondence and repaired, DESIGN 9.4).",
             PROXY_NOTE + "C02_dest_udp carries a state condition (udp_slot_ok): after a failed oversized datagram FailOverClientTransport forgets its UDP primary for good (model and Go code alike; recorded as an observation).",
             "Coq proof (Via-view of a message, pop/hop/send characterisations, reachable-state invariant) + whole-proxy differential run with independent judge"),
     "C03": ("Theorems for every message, state, configuration: C03_at_most_one(_udp/_tcp) (no event ever sends to two destinations), C03_choice (the hop is exactly choose_hop written from the "
             "property text: first remaining SIP Route entry after the own one, else static route of the To host, else a backend if the Request-URI matches, else nothing), C03_choice_outputs, "
-            "C03_backend_member(_event), C03_unsupported_transport_dropped/_event, C03_non_sip_route (the case the quantifier excludes, stated), C03_b1_legacy_refuted.",
-            PROXY_NOTE + "Service-name patterns within the regular-expression subset of Rx.v; which backend a pin selects is C04, rotation evenness C05.",
+            "C03_backend_member(_event), C03_unsupported_transport_dropped/_event, C03_non_sip_route (the case the quantifier excludes, stated), C03_b1_legacy_refuted. "
+            "Judge link (proofs/C03_bridge.v): C03_choose_agree (the judge's reading of the precedence = the model's effective hop, on the grammar domain), "
+            "C03_judge_bridge_udp / _step / _step_no_tcp (judge_C03_event answers 0 on the model's output; for a TCP next hop one observation-side premise "
+            "remains: when nothing was written the judge's connection bookkeeping must allow silence), C03_agree_step_udp (the judge's and the model's "
+            "view of backends and connections stay in agreement along datagram events).",
+            PROXY_NOTE + TB_NOTE + "Service-name patterns within the regular-expression subset of Rx.v; which backend a pin selects is C04, rotation evenness C05.",
             "Coq proof (request pipeline decomposition, route view over all Route headers) + decision-table differential run with independent judge"),
     "C06": ("Theorems for every request/header layout/position: C06_via_pushed + C06_via_position (exactly one Via naming the listener's transport/address/port with the event's branch, "
             "immediately above the first existing Via header, all others beneath in order), C06_rr_policy/_position/_flat (own <sip:addr:port;lr> ahead of all Record-Route entries iff one is "
             "present or must-record-route), C06_decorate_learned / C06_not_learned_untouched / C06_backend_decorates / C06_relayed_request (end to end over process_message), C06_branch, "
-            "C06_branch_of_inj/_cookie/C06_branches_distinct, C06_learn_lookup, C06_learning(_response).",
-            PROXY_NOTE + "Freshness of the REAL branches rests on uuid.NewRandom (48 random bits): the driver keeps the set of every branch seen in a run and reports a duplicate; that is a measurement, not a theorem.",
+            "C06_branch_of_inj/_cookie/C06_branches_distinct, C06_learn_lookup, C06_learning(_response). Judge link (proofs/C06_bridge.v): "
+            "C06_judge_bridge_step / _udp (judge_C06_event answers 0 on the model's output, for requests of the grammar domain), C06_agree_step and "
+            "C06_lrn_ok_step (the judge's learned table and the model's agree along datagram events).",
+            PROXY_NOTE + TB_NOTE + "Freshness of the REAL branches rests on uuid.NewRandom (48 random bits): the driver keeps the set of every branch seen in a run and reports a duplicate; that is a measurement, not a theorem.",
             "Coq proof (insertion-position lemmas, flattened Via/Record-Route views) + whole-proxy differential run with independent judge"),
     "C07": ("Theorems: C07_stamp + C07_stamp_params + C07_kv_set_char (received = source IP overriding a supplied one, rport = source port iff an rport parameter was present, every other "
             "parameter, entry and header untouched), C07_pipeline (stamping iff received-support and request), C07_wiring (every listener kind gets !no-received from the YAML) / C07_wiring_legacy "
             "(the pre-fix argument order gives the never-set defRoute), C07_wired_reachable (accepted AND dialled connections in every reachable state), C07_step_udp / C07_step_tcp. Judge link (proofs/C07_bridge.v): C07_judge_bridge_udp / "
             "C07_judge_bridge_step (judge_C07_event answers 0 on the bytes the model emits, for every request in the Via grammar domain).",
-            PROXY_NOTE + "The wiring is exercised for real: YAML -> loadConfigFromReader -> startProxy; requests arrive over UDP, accepted TCP connections and connections the proxy dialled itself.",
+            PROXY_NOTE + TB_NOTE + "The wiring is exercised for real: YAML -> loadConfigFromReader -> startProxy; requests arrive over UDP, accepted TCP connections and connections the proxy dialled itself.",
             "Coq proof (parameter-list characterisation of SetParam, wiring function, reachable-state invariant) + whole-proxy differential run with independent judge"),
     "C04": ("Theorems over every history (no bound on length, dialogs, backends): C04_bind / C04_bind_subscribe (a response with both tags whose CSeq method is INVITE coming from a backend address - or a "
             "SUBSCRIBE response relayed towards a backend - files the dialog under that backend object until now + max(timeout, Expires)), C04_sticky_step(_reverse) (a request of ANY method whose "
@@ -139,7 +156,7 @@ CLAIMED.update({
             "same key, or membership change of that backend keeps the pin: unrelated requests, responses, TCP traffic, other dialogs, other backends' membership), C04_sticky and C04_sticky_pinned "
             "(history form: bind, any admissible history, then a request of the dialog addressed to the service is delivered to the answering backend and nowhere else), C04_unpinned_step / "
             "C04_unpinned_balanced (a request of no live pinned dialog takes the rotation's next backend = C05), bref_round_trip (the pin's textual encoding), key_neq_dialog, C04_legacy_refuted.",
-            PROXY_NOTE + "Hypotheses visible in the statements: the lifetime is non-negative (a huge Expires wraps), the backend generation < 2^63, and a dialog identifier is not also a "
+            PROXY_NOTE + TB_NOTE + "Hypotheses visible in the statements: the lifetime is non-negative (a huge Expires wraps), the backend generation < 2^63, and a dialog identifier is not also a "
             "transaction key METHOD-branch of the same table (key_neq_dialog gives the syntactic sufficient condition: the proxy's branches start with the magic cookie). 'Addressed to the service' = "
             "no Route or exactly the own Route entry, no static route for the To host, Request-URI matching the service name. Run: 1-7 (thorough 50) concurrent dialogs over 2-6 backends, both "
             "directions, every method, backend answers to in-dialog requests, foreign dialogs (established by non-backend peers), unrelated traffic in between.",
